@@ -191,12 +191,34 @@ def noise_atoms(x):
     return sorted([a for a in nf.all_atoms(x) if a[0] == "fn" and a[1] == "NOISE"], key=repr)
 
 
+def constructed_top(model, halfway=False, levy="space-time"):
+    """A BrownianInterval object as its own constructor leaves it (abstractly evaluated): every slot __init__ sets is
+    there, whatever it is called, so that the __call__ scenarios below keep working when the constructor gains state."""
+    fi = model.func(BI, "BrownianInterval.__init__")
+    bcls = model.cls(BI, "BrownianInterval")
+    decisions = {"t0 > t1": False, "tol <= 0.0": False, "tol < 0.0": False, "tol == 0.0": not halfway}
+    hooks = BrownianHooks(decisions)
+    it = Interp(model, hooks)
+    me = Obj("bm", cls=bcls)
+    kwargs = dict(t0=nf.sym("T0", True), t1=nf.sym("T1", True), size=SIZE, entropy=nf.sym("ENTROPY", True),
+                  tol=Fraction(0) if not halfway else nf.sym("TOL", True), pool_size=nf.sym("POOL", True),
+                  halfway_tree=halfway, levy_area_approximation=levy, W=None, H=None, dt=None)
+    try:
+        it.call_function(fi, [me], kwargs)
+    except (SimRaise, AnalysisError):
+        return Obj("bm", cls=bcls)          # the hand-made slots below are then all there is
+    return me
+
+
 def eval_call(model, n_pieces, have_H, have_A, zero_length=False, return_U=True, return_A=True, hooks=None,
-              dt_known=True, size=None):
-    """BrownianInterval.__call__ on a query covered by n_pieces contiguous stored pieces."""
+              dt_known=True, size=None, me=None, query=None, round_table=None):
+    """BrownianInterval.__call__ on a query covered by n_pieces contiguous stored pieces.  With `me` the call is made on an
+    object that already answered other queries; `query` gives the raw end points (symbols) and `round_table` the grid point
+    each raw symbol is quantised to."""
     fi = model.func(BI, "BrownianInterval.__call__")
     bcls = model.cls(BI, "BrownianInterval")
     ta, tb = nf.sym("ta", True), nf.sym("tb", True)
+    raw_ta, raw_tb = query if query is not None else (ta, tb)
     cuts = [ta] + [nf.sym(f"u{i}", True) for i in range(1, n_pieces)] + [tb]
     pieces = []
     for i in range(n_pieces):
@@ -221,15 +243,26 @@ def eval_call(model, n_pieces, have_H, have_A, zero_length=False, return_U=True,
     if hooks.ordering is None:
         hooks.ordering = order
     it = Interp(model, hooks)
-    me = Obj("bm", cls=bcls, attrs={
-        "_start": nf.sym("T0", True), "_end": nf.sym("T1", True), "_size": SIZE if size is None else tuple(size), "_dtype": "dtype",
-        "_device": "device", "_have_H": have_H, "_have_A": have_A, "_dt": nf.sym("DT", True) if dt_known else None,
-        "_halfway_tree": False, "_round": identity_round(), "_last_interval": last,
-        "_num_evaluations": Fraction(-100), "_average_dt": Fraction(0), "_tree_dt": nf.sym("TREE_DT", True),
-        "_tol": nf.sym("TOL", True), "_entropy": nf.sym("ENTROPY", True), "_pool_size": nf.sym("POOL", True),
-        "_cache_size": Fraction(45), "_levy_area_approximation": "foster" if have_A else ("space-time" if have_H else "none"),
-    })
-    out = it.call_function(fi, [me, ta, tb], {"return_U": return_U, "return_A": return_A})
+    if me is None:
+        me = constructed_top(model)
+        me.attrs.update({
+            "_start": nf.sym("T0", True), "_end": nf.sym("T1", True), "_size": SIZE if size is None else tuple(size), "_dtype": "dtype",
+            "_device": "device", "_have_H": have_H, "_have_A": have_A, "_dt": nf.sym("DT", True) if dt_known else None,
+            "_halfway_tree": False, "_round": identity_round(),
+            "_num_evaluations": Fraction(0), "_average_dt": Fraction(0), "_tree_dt": nf.sym("TREE_DT", True),
+            "_tol": nf.sym("TOL", True), "_entropy": nf.sym("ENTROPY", True), "_pool_size": nf.sym("POOL", True),
+            "_cache_size": Fraction(45), "_levy_area_approximation": "foster" if have_A else ("space-time" if have_H else "none"),
+        })
+    me.attrs["_last_interval"] = last
+    if round_table is not None:
+        def rnd(it2, a, k, n, f):
+            x = a[0]
+            for raw, grid in round_table:
+                if isinstance(x, Rat) and nf.equal(x, raw):
+                    return grid
+            return x
+        me.attrs["_round"] = Intrinsic("_round", rnd)
+    out = it.call_function(fi, [me, raw_ta, raw_tb], {"return_U": return_U, "return_A": return_A})
     return dict(out=out, ta=ta, tb=tb, cuts=cuts, pieces=pieces, loc_calls=loc_calls, me=me, hooks=hooks, fi=fi,
                 last_interval_after=me.attrs.get("_last_interval"))
 
